@@ -35,7 +35,7 @@ def _requote_undecodable(error):
 codecs.register_error("ural.requote", _requote_undecodable)
 
 
-def _unquote_impl(string, only_printable=False, unsafe=None):
+def _unquote_impl(string, only_printable=False, unsafe=None, lossless=False):
     string = string.encode("utf-8")
     bits = string.split(b"%")
     if len(bits) == 1:
@@ -57,7 +57,9 @@ def _unquote_impl(string, only_printable=False, unsafe=None):
                 append(b)
                 append(item[2:])
         else:
-            append(b"%")
+            # NOTE: a stray percent sign must not be able to form a new escape
+            # with what gets decoded after it (e.g. "%%34%31" -> "%41")
+            append(b"%25" if lossless else b"%")
             append(item)
 
     return res
@@ -71,9 +73,9 @@ def _generate_unquoted_parts(string, only_printable=False, unsafe=None, lossless
         # The ascii_match[1] group == string[start:end].
 
         m = ascii_match.group(1)
-        c = _unquote_impl(m, only_printable=only_printable, unsafe=unsafe).decode(
-            "utf-8", "ural.requote" if lossless else "replace"
-        )
+        c = _unquote_impl(
+            m, only_printable=only_printable, unsafe=unsafe, lossless=lossless
+        ).decode("utf-8", "ural.requote" if lossless else "replace")
 
         # NOTE: C1 control characters need two bytes in utf-8, hence they can
         # only be recognized once decoded
